@@ -3,6 +3,7 @@ From Coq Require Import NArith ZArith List Bool.
 From Coq Require Import Floats.SpecFloat.
 From AJ Require Import Model.Base Model.FloatModel Model.Value Model.JsonParse Model.JsonSer Model.MsgPack.
 From AJ Require Import Proofs.MsgPackRT Proofs.JsonSerRT.
+From AJ Require Import Model.MsgPackTypes Spec.MsgPackSpec Proofs.MsgPackTypesProofs.
 Local Open Scope Z_scope.
 
 (* exactly one object equal to the document: the reader (whose acceptance of well-formed input is C09) decodes
@@ -56,6 +57,38 @@ Theorem C08_bounded_buffer : forall n t,
   write_to_buffer false n t = (firstn n t, Nat.min n (length t), false).
 Proof. intros. rewrite write_to_buffer_spec. reflexivity. Qed.
 Print Assumptions C08_bounded_buffer.
+
+(* bin / ext values given through the typed API (MsgPackBinary, MsgPackExtension): what the converter stores, and
+   serializeMsgPack then emits verbatim, is a legal encoding of that object in the sense of the specification, with the
+   narrowest header (fixext exactly for payloads of 1, 2, 4, 8, 16 bytes), and it reads back to the payload *)
+Theorem C08_binary_value_is_conforming : forall cf p raw L rest, mp_binary_raw p = Some raw ->
+  MpEnc (MBin raw) raw /\ mp_ser (JRaw raw) = raw /\
+  mp_run cf None L (raw ++ rest) = {| mp_err := Ok; mp_doc := JRaw raw;
+                                      mp_rd := {| m_rest := rest; m_reads := N.of_nat (length raw) |} |} /\
+  mp_binary_of_raw raw = Some p.
+Proof.
+  intros cf p raw L rest H. split; [exact (proj1 (binary_raw_is_legal p raw H))|].
+  destruct (binary_through_document cf p raw L rest H) as [A B]. split; [exact A|]. split; [exact B|].
+  exact (binary_roundtrip p raw H).
+Qed.
+Print Assumptions C08_binary_value_is_conforming.
+
+Theorem C08_extension_value_is_conforming : forall cf ty p raw L rest, (ty < 256)%N -> mp_extension_raw ty p = Some raw ->
+  MpEnc (MExt raw) raw /\ mp_ser (JRaw raw) = raw /\
+  mp_run cf None L (raw ++ rest) = {| mp_err := Ok; mp_doc := JRaw raw;
+                                      mp_rd := {| m_rest := rest; m_reads := N.of_nat (length raw) |} |} /\
+  mp_extension_of_raw raw = Some (ty, p).
+Proof.
+  intros cf ty p raw L rest Ht H. split; [exact (proj1 (extension_raw_is_legal ty p raw Ht H))|].
+  destruct (extension_through_document cf ty p raw L rest Ht H) as [A B]. split; [exact A|]. split; [exact B|].
+  exact (extension_roundtrip_gen ty p raw H).
+Qed.
+Print Assumptions C08_extension_value_is_conforming.
+
+Theorem C08_fixext_exactly_for_1_2_4_8_16 : forall ty p raw, mp_extension_raw ty p = Some raw ->
+  ((0xD4 <= hd 0 raw <= 0xD8)%N <-> fixext_size (length p)).
+Proof. exact extension_fixext_iff. Qed.
+Print Assumptions C08_fixext_exactly_for_1_2_4_8_16.
 
 Example C08_example :
   mp_ser (JObj [([97%N], JArr [JInt 300; JInt (-33); JDouble (sf_of_bits F64 0x4000000000000000); JStr [120%N]; JNull])])
